@@ -368,8 +368,6 @@ Theorem rendered_labels_distinct :
     NoDup (chunk_labels G) ->                                   (* the author's labels are pairwise distinct *)
     NoDup (lnames code).
 Proof. intros mp tl name glob G order code HR ND _ RG NL. eapply rendered_labels_distinct_strong; eauto. Qed.
-Print Assumptions rendered_labels_distinct.
-Print Assumptions rendered_labels_distinct_strong.
 
 (* ---------- the executable form ---------- *)
 Lemma nodupt_complete l : NoDup l -> nodupt l = true.
@@ -398,7 +396,6 @@ Theorem rendered_labels_nodupt :
     NoDup (chunk_labels G) ->
     nodupt (lnames code) = true.
 Proof. intros. apply nodupt_complete. eapply rendered_labels_distinct; eauto. Qed.
-Print Assumptions rendered_labels_nodupt.
 
 (* the same with every premise executable *)
 Theorem rendered_labels_nodupt_checked :
@@ -416,7 +413,6 @@ Proof.
     split; [apply Z.leb_le; exact A|apply Z.ltb_lt; exact B].
   - now apply nodupt_sound.
 Qed.
-Print Assumptions rendered_labels_nodupt_checked.
 
 (* ---------- the hypotheses are satisfiable: a script with an if, a loop and three labels of the author ---------- *)
 Definition ex_tk : token := {| ttype := IDENT; tlit := []; tline := 1; tsb := 0; tsu := 0; teline := 1; teb := 0; teu := 0 |}.
@@ -458,8 +454,3 @@ Proof.
   destruct hypotheses_satisfiable as (_ & R & H1 & H2 & H3 & H4 & _).
   exact (rendered_labels_distinct _ _ _ _ _ _ _ R H1 H2 H3 H4).
 Qed.
-Print Assumptions hypotheses_satisfiable.
-Print Assumptions ex_labels_distinct.
-Print Assumptions decZ_inj.
-Print Assumptions decZ_collision.
-Print Assumptions render_chunks_lnames.
